@@ -14,10 +14,12 @@ import random
 from lib.vlib import Inconclusive, write_ndjson, read_ndjson
 
 FORGE64 = ["resign_stranger", "resign_otherdev", "resign_owner", "nonce_other", "ueid_other",
-           "ueid_other_key_other", "no_nonce", "no_ueid", "sig_flip", "payload_flip", "xb_empty"]
+           "ueid_other_key_other", "no_nonce", "no_ueid", "sig_flip", "payload_flip", "xb_empty",
+           "ueid_prefix", "ueid_longer", "ueid_type", "nonce_prefix"]
 FORGE22 = ["to1d_resign_stranger", "to1d_resign_mfg", "to0d_wait_changed", "hash_wrong", "nonce_other",
            "entry_sig_flip", "no_entries", "no_entries_mfg_signed", "entry_resigned_stranger", "strip_certchain"]
-FORGE32 = ["resign_stranger", "resign_otherdev", "nonce_other", "ueid_other", "sig_flip", "no_nonce", "no_ueid"]
+FORGE32 = ["resign_stranger", "resign_otherdev", "nonce_other", "ueid_other", "sig_flip", "no_nonce", "no_ueid",
+           "ueid_prefix", "ueid_longer", "ueid_type", "nonce_prefix"]
 
 
 def tla_set(xs):
